@@ -22,6 +22,7 @@ type Obligation struct {
 	Src       string            // contract clause text, if any
 	ExpectSat bool              // vacuity probes: must NOT be unsat
 	Vars      map[string]string // readable names -> SMT constant names (for models)
+	Orig      *Term             // the goal before skolemisation (for the syntactic-hypothesis shortcut)
 }
 
 type frame struct {
@@ -51,6 +52,10 @@ type Exec struct {
 	heap0           map[string]*Term
 	heapSorts       map[string]Sort
 	boxKinds        map[string]boxKind // typed box functions in use (goexpr.go)
+	aliases         map[string]string  // renamed variables: contract name -> current name (symbols.go)
+	aliasDone       bool
+	retAlign        []int // current return ordinal -> ordinal in the symbol snapshot (0: new)
+	retAlignDone    bool
 	heapElemTy      map[string]*Ty     // element / pointee type of H_ and P_ heaps (for stored-value invariants)
 	obls            []*Obligation
 	entry           *State
@@ -119,7 +124,7 @@ func (x *Exec) oblige(st *State, kind, label string, goal *Term, pos token.Pos, 
 			return
 		}
 	}
-	o := &Obligation{Name: name, Func: x.key, Kind: kind, Hyps: append([]*Term(nil), st.pc...), Goal: sg, X: x, Src: src}
+	o := &Obligation{Name: name, Func: x.key, Kind: kind, Hyps: append([]*Term(nil), st.pc...), Goal: sg, X: x, Src: src, Orig: goal}
 	if pos.IsValid() {
 		o.Pos = x.eng.pos(pos)
 	}
@@ -522,7 +527,10 @@ func (x *Exec) cellsEqual(hn string, h1, h0 *Term, k BoundVar, kt, cond *Term) *
 // witnessName strips the kind suffix of a witness declaration
 // (name:float - a float64; name:ints - a sequence of ints).
 func witnessName(n string) string {
-	return strings.TrimSuffix(strings.TrimSuffix(n, ":float"), ":ints")
+	if k := strings.Index(n, ":"); k >= 0 {
+		return n[:k]
+	}
+	return n
 }
 
 func (x *Exec) freshWitness(w WitnessDef) Val {
@@ -534,6 +542,13 @@ func (x *Exec) freshWitness(w WitnessDef) Val {
 	}
 	if strings.HasSuffix(w.Name, ":float") {
 		return Val{T: x.sym.Fresh("wit_"+sanitize(w.Name), x.model.Float), Ty: tyFloat}
+	}
+	if k := strings.Index(w.Name, ":"); k >= 0 {
+		// name:pkg.Type - a value of a named (interface or other handle) type
+		pe := &CEnv{x: x, pkg: x.fi.Pkg.Types}
+		ty := pe.cty(&CType{Kind: "named", Name: w.Name[k+1:]})
+		t := x.sym.Fresh("wit_"+sanitize(w.Name[:k]), x.w.sortOf(ty, x.model))
+		return Val{T: t, Ty: ty}
 	}
 	return Val{T: x.sym.Fresh("wit_"+w.Name, SInt), Ty: tyInt}
 }
@@ -555,6 +570,24 @@ func (x *Exec) retOrdinal(pos token.Pos) int {
 	}
 	for i, p := range x.retPos {
 		if p == pos {
+			// return sites keep the ordinal they had when the contracts were
+			// written (symbols.go): a return added in front of anchored ones
+			// does not shift `@retN`; the new site is numbered 900+
+			if !x.retAlignDone {
+				x.retAlignDone = true
+				if !strings.Contains(x.key, "#") {
+					x.retAlign = retAlignment(x.fi)
+					if x.retAlign != nil {
+						x.notes = append(x.notes, x.key+": return sites aligned with the symbol snapshot (returns were added, removed or changed)")
+					}
+				}
+			}
+			if x.retAlign != nil && i+1 < len(x.retAlign) {
+				if o := x.retAlign[i+1]; o > 0 {
+					return o
+				}
+				return 900 + i + 1
+			}
 			return i + 1
 		}
 	}
@@ -849,6 +882,24 @@ func (x *Exec) readGlobal(st *State, o *types.Var) Val {
 }
 
 func (x *Exec) noteTrusted(s string) { x.trusted[s] = true }
+
+// aliasOf: the current name of a variable the contract knows under an older name.
+func (x *Exec) aliasOf(name string) (string, bool) {
+	if !x.aliasDone {
+		x.aliasDone = true
+		x.aliases = renameAliases(x.fi)
+		if len(x.aliases) > 0 {
+			var ks []string
+			for k, v := range x.aliases {
+				ks = append(ks, k+" -> "+v)
+			}
+			sort.Strings(ks)
+			x.notes = append(x.notes, x.key+": contract names read through the symbol snapshot (renamed variables): "+strings.Join(ks, ", "))
+		}
+	}
+	a, ok := x.aliases[name]
+	return a, ok
+}
 
 func (x *Exec) trustedList() []string {
 	var out []string
